@@ -2,6 +2,7 @@ import ZapVerif.Model.Callers
 import ZapVerif.Proofs.TransCaller
 import ZapVerif.Proofs.Callers
 import ZapVerif.Proofs.TransCapture
+import ZapVerif.Proofs.TransStackFmt
 /-! # C15 — caller and stack annotations identify the user's call site
 
 A stack is the list of frames (innermost first) that `runtime.Callers(0, …)` would enumerate from inside
@@ -526,5 +527,77 @@ theorem Capture_full_matches_source (P : Par) (skip : Nat) (storage : List Val) 
   rw [show Gen.Callers.captureCallersOffset = 2 from rfl] at h
   obtain ⟨s', hrun, -⟩ := Capture_matches_source P skip true storage pcs0 frames0 self hslab hsl hst hskip _ h fuel
   exact ⟨s', hrun⟩
+
+end ZapVerif.C15
+
+/-! ## the stack formatter IS the source (translator round 4, table `Gen/TransStackFmt.lean`)
+
+internal/stacktrace `(*Formatter).FormatFrame` and `FormatStack`, translated mechanically; the `*Stack` is the iterator
+value and `runtime.Frames.Next` an intrinsic on it.  `FormatStack_matches_source`: exactly `Callers.formatStack frames`
+(all frames but the trailing runtime frame) are written, in order, each as `function\n\tfile:line`, separated by newlines. -/
+set_option linter.unusedSimpArgs false
+namespace ZapVerif.C15
+open ZapVerif ZapVerif.GoMini ZapVerif.TransStackFmt ZapVerif.Gen.TransStackFmt
+
+/-- `FormatFrame`: a newline unless this is the first frame, then `function\n\tfile:line`; `nonEmpty` set -/
+theorem FormatFrame_exec_matches_source (f : FrameD) (b : Bytes) (ne : Bool) (hl : (f.line : Int) < 9223372036854775808) (fuel : Nat) :
+    (exec X (fuel + 1) FormatFrame_body ⟨[("p0", encF f)], fEnv b ne⟩).fin = some ([], fEnv (stepF b ne f) true) := by
+  rw [exec_succ]
+  have hw : wrap .i64 (f.line : Int) = f.line := by rw [wrap_i64_id] <;> omega
+  cases ne <;> simp [FormatFrame_body, fEnv, encF, stepF, hw, List.append_assoc]
+
+theorem FormatFrame_matches_source (f : FrameD) (b : Bytes) (ne : Bool) (hl : (f.line : Int) < 9223372036854775808) (fuel : Nat) :
+    run X (fuel + 1) "FormatFrame" [encF f] (fEnv b ne) = .done [] (fEnv (stepF b ne f) true) :=
+  run_of_fin X _ _ Gen.TransStackFmt.FormatFrame _ _ _ _ rfl rfl (FormatFrame_exec_matches_source f b ne hl fuel)
+
+/-- the loop of `FormatStack`: the frame in hand is formatted only while MORE follow -/
+theorem FormatStack_loop_matches_source : ∀ (rest : List FrameD) (cur : Val) (curD : FrameD) (b : Bytes) (ne : Bool) (fuel : Nat),
+    cur = encF curD → (∀ f ∈ curD :: rest, (f.line : Int) < 9223372036854775808) →
+    ∃ l, execS X (exec X (fuel + rest.length + 1)) FormatStack_loop0
+        ⟨[("p0", .list (rest.map encF)), ("l0", cur), ("l1", .bool (!rest.isEmpty))], fEnv b ne⟩ =
+      .normal ⟨l, fEnv (fmtAll b ne (curD :: rest).dropLast).1 (fmtAll b ne (curD :: rest).dropLast).2⟩
+  | [], cur, curD, b, ne, fuel, _, _ => by
+    refine ⟨[("p0", .list []), ("l0", cur), ("l1", .bool false)], ?_⟩
+    unfold FormatStack_loop0
+    rw [execS_loop]
+    simp [fmtAll]
+  | r0 :: rest, cur, curD, b, ne, fuel, hc, hl => by
+    obtain ⟨l, ih⟩ := FormatStack_loop_matches_source rest (encF r0) r0 (stepF b ne curD) true fuel rfl
+      (fun f hf => hl f (List.mem_cons_of_mem _ hf))
+    refine ⟨l, ?_⟩
+    have hcall : ∀ σ : State, retK σ [] "FormatFrame"
+        (exec X (fuel + rest.length + 1 + 1) FormatFrame_body ⟨[("p0", encF curD)], fEnv b ne⟩) = _ :=
+      fun σ => retK_of_fin0 σ _ _ _ (FormatFrame_exec_matches_source curD b ne (hl curD (List.mem_cons_self ..)) _)
+    have hdl : (curD :: r0 :: rest).dropLast = curD :: (r0 :: rest).dropLast := rfl
+    subst hc
+    unfold FormatStack_loop0 at ih ⊢
+    rw [execS_loop]
+    simp only [List.length_cons, show fuel + (rest.length + 1) + 1 = fuel + rest.length + 1 + 1 by omega]
+    simp [hcall, hdl, fmtAll]
+    rw [exec_succ]
+    simpa [fmtAll] using ih
+
+
+/-- `FormatStack`: every frame the iterator returns with "more follow" is formatted, in order — i.e. all frames but the
+    LAST (`Callers.formatStack`, the function of `last_runtime_frame_dropped`): the trailing runtime frame is dropped,
+    and an empty iterator formats nothing -/
+theorem FormatStack_matches_source (frames : List FrameD) (b : Bytes) (ne : Bool)
+    (hl : ∀ f ∈ frames, (f.line : Int) < 9223372036854775808) (fuel : Nat) :
+    run X (fuel + frames.length + 1) "FormatStack" [.list (frames.map encF)] (fEnv b ne) =
+      .done [] (fEnv (fmtAll b ne (Callers.formatStack frames)).1 (fmtAll b ne (Callers.formatStack frames)).2) := by
+  apply run_of_fin X _ _ Gen.TransStackFmt.FormatStack _ _ _ _ rfl rfl
+  cases frames with
+  | nil =>
+    rw [exec_succ]
+    have : FormatStack_loop0 = .loop (.loc "l1") FormatStack_loop0.lpost FormatStack_loop0.lbody := rfl
+    simp only [FormatStack_body_eq, FormatStack_body, execS_seq]
+    rw [this]
+    simp [execS_loop, Callers.formatStack, fmtAll, zeroFrame]
+  | cons f r =>
+    obtain ⟨l, h⟩ := FormatStack_loop_matches_source r (encF f) f b ne fuel rfl hl
+    simp only [List.length_cons, show fuel + (r.length + 1) + 1 = (fuel + r.length + 1) + 1 by omega]
+    rw [exec_succ]
+    simp only [FormatStack_body_eq, FormatStack_params_eq, FormatStack_named_eq, FormatStack_body, execS_seq]
+    simp [h, Callers.formatStack]
 
 end ZapVerif.C15
